@@ -194,4 +194,41 @@ def r1_11(ctx):
     borrow(ctx, r8_17, "R8.17", "R1.11", " [a title wider than it was measured makes the top border exceed the available width]")
 
 
-RULES = [r1_1, r1_2, r1_3, r1_4, r1_5, r1_6, r1_7, r1_8, r1_9, r1_10, r1_11]
+def r1_12(ctx):
+    ctx.rule("R1.12", "an explicit print width never exceeds the terminal: the `width` that Console.print puts into its render options is None or min(.., self.width) - the same options render the live frame that the render hook adds to every print, and a frame is made of control segments that split_and_crop_lines does not crop: print(width=60) on a 40-column terminal would draw 60-cell frame lines that wrap on screen")
+    from ..astutil import inline as _inl, single_defs as _sdf
+    f = ctx.repo.fn("console:Console.print")
+    m = f.module
+    sd = _sdf(f.node)
+    ups = [c for c in walk_local(f.node) if isinstance(c, ast.Call) and isinstance(c.func, ast.Attribute) and c.func.attr == "update" and norm(c.func.value).endswith("options") and any(k.arg == "width" for k in c.keywords)]
+    if not ups:
+        raise AnalysisError("Console.print: no options.update(width=..) found; the explicit-width clause is written differently and not decided")
+
+    def alts(e):
+        if isinstance(e, ast.IfExp):
+            return alts(e.body) + alts(e.orelse)
+        if isinstance(e, ast.BoolOp) and isinstance(e.op, (ast.And, ast.Or)):
+            return [a for v in e.values for a in alts(v)]
+        return [e]
+    for c in ups:
+        w = _inl(next(k.value for k in c.keywords if k.arg == "width"), sd)
+        bad = []
+        unknown = []
+        for a in alts(w):
+            if isinstance(a, ast.Constant) and a.value is None:
+                continue
+            if isinstance(a, ast.Call) and norm(a.func) == "min" and any(norm(x) == "self.width" for x in a.args):
+                continue
+            if norm(a) == "self.width":
+                continue
+            if isinstance(a, ast.Name) and a.id in f.params:
+                bad.append(a)
+            else:
+                unknown.append(a)
+        if unknown and not bad:
+            raise AnalysisError(f"Console.print: cannot bound the render width `{norm(w)}` by the terminal width")
+        ctx.check(not bad, f.fq, short(c), f"{m.relpath}:{c.lineno}", "explicit width capped by the terminal width",
+                  f"`{short(c)}`: the caller's `{norm(bad[0]) if bad else ''}` reaches the render options without min(.., self.width): everything rendered by this print - including the live frame appended by the render hook, whose control segments are never cropped - is laid out wider than the terminal")
+
+
+RULES = [r1_1, r1_2, r1_3, r1_4, r1_5, r1_6, r1_7, r1_8, r1_9, r1_10, r1_11, r1_12]
